@@ -14,7 +14,7 @@ func init() {
 	Runners["C08"] = fileRunnerEnum(func(p *harness.Program) Result { return RunC08(p, false) })
 	harness.Specs["C08"] = &harness.PropSpec{
 		ID: "C08", Test: "TestC08", Kind: "file", Level: "fault_enumeration",
-		Quick: 2400, Thorough: 9000,
+		Quick: 2400, Thorough: 6000,
 		Rule: "evaluations = generated histories; each is first run fault-free to count the I/O calls per kind (write, sync, truncate, size, mmap), then re-run " +
 			"with one fault plan per run: (kind, ordinal of the first failing call of that kind, burst 1-4, mode: error before effect / short write / effect then " +
 			"error, ENOSPC or EIO); quick: 10 drawn plans per history, thorough: the complete sweep over all positions for histories with <= 120 calls (else 40 drawn); " +
